@@ -37,6 +37,9 @@ type Case struct {
 	Scenario string `json:"scenario,omitempty"`
 }
 
+// SigSelfParent: known-finding class (WithParent naming the commit's own name).
+const SigSelfParent = "C08-withparent-own-name-self-parent"
+
 // SigKeyReuse: known-finding class F67.
 const SigKeyReuse = "C08-conc-key-removed-and-reused-during-prepare"
 
@@ -210,6 +213,23 @@ func exec(c Case) (problems []string, stats map[string]int) {
 		stats["class.scenario.held-prepare."+<-done]++
 		snapshot.VerifOnCrashPoint(nil)
 		stats["scenario.key-reuse"]++
+	}
+	if c.Scenario == "self-parent" {
+		// snapshots.WithParent naming the target of the same Prepare: storage.CommitActive creates the target bucket
+		// first and then finds it as "the parent": the committed remote snapshot is its own parent. Nothing that walks
+		// a parent chain is called here (storage.parents would never return).
+		stats["class.scenario.selfparent."+r.do(snapx.Op{Op: "prepare", Key: 40, Parent: -1, L: snapx.Labels{T: 41, W: 41 + 1}, MOK: true})]++
+		if info, err := m.SN.Stat(context.Background(), snapx.Name(41)); err == nil && info.Parent == snapx.Name(41) {
+			r.problems = append(r.problems, "FINDING2:"+fmt.Sprintf("Prepare(k40, target k41, WithParent(k41)) committed k41 as its own parent (Stat: parent = %s); a later Prepare/View/Mounts on top of it loops forever in storage.parents, Remove(k41) is refused (it has a child: itself)", info.Parent))
+		} else {
+			r.problem("self-parent scenario: Stat(k41) = %+v, %v", info, err)
+		}
+		stats["class.scenario.selfparent.remove."+r.do(snapx.Op{Op: "remove", Key: 41, Parent: -1, L: snapx.NoLabels})]++
+		stats["scenario.self-parent"]++
+		m.FS.Lock()
+		ps := append([]string{}, m.FS.Problems...)
+		m.FS.Unlock()
+		return append(r.problems, ps...), stats
 	}
 	// sequential set-up
 	var perThread [][]snapx.Op
@@ -403,6 +423,11 @@ func main() {
 		key := fmt.Sprintf("%v", c)
 		id := ctx.Case("(true, [], [])", c, key, stats["overlapping-calls"] > 0)
 		for _, p := range problems {
+			if strings.HasPrefix(p, "FINDING2:") {
+				ctx.Count("finding." + SigSelfParent)
+				ctx.Finding(id, SigSelfParent, strings.TrimPrefix(p, "FINDING2:"), nil)
+				continue
+			}
 			if strings.HasPrefix(p, "FINDING:") {
 				ctx.Count("finding." + SigKeyReuse)
 				ctx.Finding(id, SigKeyReuse, strings.TrimPrefix(p, "FINDING:"), nil)
@@ -419,8 +444,9 @@ func main() {
 		return
 	}
 	emit(Case{Threads: 1, Scenario: "key-reuse"})
+	emit(Case{Threads: 1, Scenario: "self-parent"})
 	r := hx.NewRng(ctx.Seed)
-	for i := 1; i < ctx.N; i++ {
+	for i := 2; i < ctx.N; i++ {
 		emit(gen(r.Fork()))
 	}
 	ctx.Finish()
